@@ -29,8 +29,17 @@ fn values(r: i64) -> Vec<Option<i64>> {
 fn one(run: &Run, acc: &mut Acc, sel: &Sel, ctxs: &[(Vec<Seg>, &DocCtx, &str)], isel: Option<Selector>) {
     for (prefix, dc, class) in ctxs {
         let mut segs = prefix.clone();
-        let last_desc = *class == "descendant";
-        segs.push(if last_desc { Seg::desc(vec![sel.clone()]) } else { Seg::child(vec![sel.clone()]) });
+        let last_desc = class.starts_with("descendant");
+        // a name no document has: the union selects what the selector alone selects, whatever the order of evaluation
+        let zz = Sel::Name { val: "zz".into(), raw: "'zz'".into() };
+        let sels = if class.contains("union, selector first") {
+            vec![sel.clone(), zz]
+        } else if class.contains("union, selector last") {
+            vec![zz, sel.clone()]
+        } else {
+            vec![sel.clone()]
+        };
+        segs.push(if last_desc { Seg::desc(sels) } else { Seg::child(sels) });
         let ast = Query::root(segs);
         let q = render::query(&ast);
         let o = crate::watch::guarded(|| json!({"query": q, "doc": dc.doc}).to_string(), || check_case(run, acc, &q, &ast, dc, Mode::NodesAndPaths, class));
@@ -76,6 +85,16 @@ pub fn run(tier: &str) -> i32 {
             println!("  no result within the 20 s horizon: {}", case);
         });
     }
+    // arrays of every length with non-arrays before, between and after them
+    let mut mixed_items: Vec<Value> = vec![json!({"0": 1})];
+    for (k, a) in arrays.iter().enumerate() {
+        mixed_items.push(a.clone());
+        mixed_items.push([json!("s"), json!(7), json!(null), json!({"a": 1})][k % 4].clone());
+    }
+    let mixed = Value::Array(mixed_items);
+    let mixed_nested = json!({"o": {"k": 1}, "m": mixed.clone(), "n": [arr(2), "x", [arr(3)]]});
+    let mixed_dc = DocCtx::new(&mixed);
+    let mixed_nested_dc = DocCtx::new(&mixed_nested);
     let all_dc = DocCtx::new(&all);
     let nested_dc = DocCtx::new(&nested);
     let arr_dcs: Vec<DocCtx> = arrays.iter().map(DocCtx::new).collect();
@@ -101,7 +120,17 @@ pub fn run(tier: &str) -> i32 {
                     vec![(vec![], &arr_dcs[k], "root"), (vec![Seg::child(vec![Sel::Name { val: "a".into(), raw: "a".into() }])], &named_dcs[k], "below name")];
                 one(&run, &mut acc, &sel, &ctxs, Some(Selector::Slice(*a, *b, *c)));
             }
-            let ctxs: Vec<(Vec<Seg>, &DocCtx, &str)> = vec![(vec![Seg::child(vec![Sel::Wild])], &all_dc, "below wildcard"), (vec![], &nested_dc, "descendant")];
+            let ctxs: Vec<(Vec<Seg>, &DocCtx, &str)> = vec![
+                (vec![Seg::child(vec![Sel::Wild])], &all_dc, "below wildcard"),
+                (vec![], &nested_dc, "descendant"),
+                (vec![Seg::child(vec![Sel::Wild])], &mixed_dc, "below wildcard (arrays among non-arrays)"),
+                (vec![Seg::child(vec![Sel::Wild])], &mixed_dc, "below wildcard (arrays among non-arrays), union, selector first"),
+                (vec![Seg::child(vec![Sel::Wild])], &mixed_dc, "below wildcard (arrays among non-arrays), union, selector last"),
+                (vec![Seg::child(vec![Sel::Wild])], &all_dc, "below wildcard, union, selector first"),
+                (vec![], &mixed_nested_dc, "descendant (arrays among non-arrays)"),
+                (vec![], &mixed_nested_dc, "descendant (arrays among non-arrays), union, selector first"),
+                (vec![], &mixed_nested_dc, "descendant (arrays among non-arrays), union, selector last"),
+            ];
             one(&run, &mut acc, &sel, &ctxs, None);
             for dc in &other_dcs {
                 let ctxs: Vec<(Vec<Seg>, &DocCtx, &str)> = vec![(vec![], dc, "non-array")];
@@ -124,7 +153,17 @@ pub fn run(tier: &str) -> i32 {
                     vec![(vec![], &arr_dcs[k], "root"), (vec![Seg::child(vec![Sel::Name { val: "a".into(), raw: "a".into() }])], &named_dcs[k], "below name")];
                 one(&run, &mut acc, &sel, &ctxs, Some(Selector::Index(*i)));
             }
-            let ctxs: Vec<(Vec<Seg>, &DocCtx, &str)> = vec![(vec![Seg::child(vec![Sel::Wild])], &all_dc, "below wildcard"), (vec![], &nested_dc, "descendant")];
+            let ctxs: Vec<(Vec<Seg>, &DocCtx, &str)> = vec![
+                (vec![Seg::child(vec![Sel::Wild])], &all_dc, "below wildcard"),
+                (vec![], &nested_dc, "descendant"),
+                (vec![Seg::child(vec![Sel::Wild])], &mixed_dc, "below wildcard (arrays among non-arrays)"),
+                (vec![Seg::child(vec![Sel::Wild])], &mixed_dc, "below wildcard (arrays among non-arrays), union, selector first"),
+                (vec![Seg::child(vec![Sel::Wild])], &mixed_dc, "below wildcard (arrays among non-arrays), union, selector last"),
+                (vec![Seg::child(vec![Sel::Wild])], &all_dc, "below wildcard, union, selector first"),
+                (vec![], &mixed_nested_dc, "descendant (arrays among non-arrays)"),
+                (vec![], &mixed_nested_dc, "descendant (arrays among non-arrays), union, selector first"),
+                (vec![], &mixed_nested_dc, "descendant (arrays among non-arrays), union, selector last"),
+            ];
             one(&run, &mut acc, &sel, &ctxs, None);
             for dc in &other_dcs {
                 let ctxs: Vec<(Vec<Seg>, &DocCtx, &str)> = vec![(vec![], dc, "non-array")];
@@ -208,6 +247,6 @@ pub fn run(tier: &str) -> i32 {
             "termination: any single case exceeding a 20 s horizon is reported as a violation",
         ],
         true,
-        json!({"parameter_range": r, "max_array_length": maxlen, "contexts": ["root", "below name", "below wildcard", "descendant", "non-array", "index segment of a singular query in a comparison", "slice on the current node of a filter (count / following segment)"]}),
+        json!({"parameter_range": r, "max_array_length": maxlen, "contexts": ["root", "below name", "below wildcard", "descendant", "non-array", "below wildcard / descendant over nodelists that mix arrays with non-arrays, alone and inside a union with a name selector (either order)", "index segment of a singular query in a comparison", "slice on the current node of a filter (count / following segment)"]}),
     )
 }
